@@ -31,7 +31,7 @@ def _run(patch: Path, props, expect_violation: bool) -> bool:
         if r.returncode != 0:
             print(f"SELFTEST {patch.name}: patch does not apply any more ({r.stdout.strip()[:100]})")
             return False
-        env = dict(os.environ, AHBICHT_REPO=d, VERIF_SELFTEST="1")
+        env = dict(os.environ, AHBICHT_REPO=d, VERIF_SELFTEST="1", VERIF_EVIDENCE_DIR=d + "/evidence")
         for p in props:
             r = subprocess.run([str(VERIF / "vcheck"), p, "--tier", "quick"], env=env, capture_output=True, text=True,
                                cwd=str(VERIF))
